@@ -497,6 +497,44 @@ theorem reused_path_starts_fresh (pp : List Pid) (s : St) (deletions : List Pid)
     · injection hq with h1 h2
       exact h2.symm
 
+open Viv.Sched in
+/-- `Engine.apply_update`: the front entry of every path at which the report registers a process is
+forgotten (fix 9fb8d16, finding F51: a process put at the path of another one by a structural update —
+a `_generate` over an existing key — used to inherit the old front, i.e. the old schedule and the old
+object's pending update) -/
+def dropReplaced (registered : List Pid) (fronts : List (Pid × Front)) : List (Pid × Front) :=
+  fronts.filter (fun pf => !(registered.contains pf.1))
+
+open Viv.Sched in
+/-- **A process that replaces another one at its path starts afresh**: whatever front entry the path `p`
+had — also one with an update of the old process in flight — once a report has registered a process at
+`p`, the front of `p` at the next loop head is a new one at the current global time, and it is the only
+one; every other path keeps its entry. -/
+theorem replaced_path_starts_fresh (pp : List Pid) (s : St) (registered : List Pid) (p : Pid)
+    (hp : p ∈ pp) (hreg : p ∈ registered) :
+    (p, newFront s.gt) ∈ (normalise pp { s with fronts := dropReplaced registered s.fronts }).fronts ∧
+    (∀ f, (p, f) ∈ (normalise pp { s with fronts := dropReplaced registered s.fronts }).fronts →
+      f = newFront s.gt) ∧
+    (∀ pf ∈ s.fronts, pf.1 ∈ pp → pf.1 ∉ registered →
+      pf ∈ (normalise pp { s with fronts := dropReplaced registered s.fronts }).fronts) := by
+  have hnot : p ∉ (dropReplaced registered s.fronts).map (·.1) := by
+    intro h
+    obtain ⟨pf, hpf, rfl⟩ := List.mem_map.mp h
+    simp only [dropReplaced, List.mem_filter] at hpf
+    simp [hreg] at hpf
+  refine ⟨?_, ?_, ?_⟩
+  · exact (new_start_now_survivors_keep pp { s with fronts := dropReplaced registered s.fronts }).1 p hp hnot
+  · intro f hf
+    simp only [normalise, normFronts, List.mem_append, List.mem_filter, List.mem_map] at hf
+    rcases hf with ⟨h1, _⟩ | ⟨q, _, hq⟩
+    · exact absurd (List.mem_map.mpr ⟨(p, f), h1, rfl⟩) hnot
+    · injection hq with h1 h2
+      exact h2.symm
+  · intro pf hpf hin hnr
+    apply (new_start_now_survivors_keep pp { s with fronts := dropReplaced registered s.fronts }).2.1 pf _ hin
+    simp only [dropReplaced, List.mem_filter]
+    exact ⟨hpf, by simpa using hnr⟩
+
 /-- non-vacuity: a generate-then-delete history -/
 example :
     (runReports { procPaths := [["p"]], stepPaths := [], graph := empty }
